@@ -1,5 +1,6 @@
 import OtelVerif.Model.Propagator
 import OtelVerif.Lemmas.Idx
+import OtelVerif.Lemmas.KvTokIdx
 import OtelVerif.Props.C09
 /-! # C15 — Baggage round-trips through its header; composite propagators apply every part
 
@@ -424,11 +425,11 @@ theorem validKV_iff (ks vs : Bytes) : (isValidKey ks && isValidValue vs) = true 
     refine ⟨⟨?_, h2⟩, h3⟩
     cases ks <;> simp at h1 ⊢
 
-/-- the loop body never faults and computes `memberEntry` -/
-theorem parseMember_eq (m : Bytes) : parseMember m = .ok (memberEntry m) := by
-  obtain ⟨_, g2, _, g4, _⟩ := gen_baggage
-  unfold parseMember memberEntry
-  rw [g4, g2]
+/-- the loop body never faults (both `Trim`s and both `UrlDecode`s stay inside their strings) and computes `memberEntry` -/
+theorem parseKv_eq (m : Bytes) : parseKv (splitKv 61 m) = .ok (memberEntry m) := by
+  obtain ⟨_, g2, _, _⟩ := gen_baggage
+  unfold parseKv memberEntry
+  rw [g2]
   cases splitKv 61 m with
   | none => rfl
   | some p =>
@@ -436,7 +437,8 @@ theorem parseMember_eq (m : Bytes) : parseMember m = .ok (memberEntry m) := by
     simp only []
     by_cases hl : k.length + v.length > 4096
     · rw [if_pos hl, if_pos hl]
-    · rw [if_neg hl, if_neg hl, urlDecode_eq, Res.bind_ok, urlDecode_eq, Res.bind_ok, splitMeta_eq]
+    · rw [if_neg hl, if_neg hl, KvIdx.trim1_spec, Res.bind_ok, urlDecode_eq, Res.bind_ok, KvIdx.trim1_spec, Res.bind_ok,
+        urlDecode_eq, Res.bind_ok, splitMeta_eq]
       cases pctDecode (trim k) with
       | none => rfl
       | some ks =>
@@ -450,14 +452,14 @@ theorem parseMember_eq (m : Bytes) : parseMember m = .ok (memberEntry m) := by
             rw [if_neg this, if_neg hv]
 
 theorem fromHeaderLoop_eq (cnt : Nat) : ∀ (ms : List Bytes) (p : KvProps), p.cap = cnt → p.entries.length ≤ cnt →
-    fromHeaderLoop cnt ms p = .ok ⟨cnt, (p.entries ++ ms.filterMap memberEntry).take cnt⟩
+    fromHeaderLoop cnt (ms.map (splitKv 61)) p = .ok ⟨cnt, (p.entries ++ ms.filterMap memberEntry).take cnt⟩
   | [], p, hc, hl => by
-    simp only [fromHeaderLoop, List.filterMap_nil, List.append_nil]
+    simp only [List.map_nil, fromHeaderLoop, List.filterMap_nil, List.append_nil]
     rw [List.take_of_length_le hl, ← hc]
   | m :: ms, p, hc, hl => by
-    simp only [fromHeaderLoop]
+    simp only [List.map_cons, fromHeaderLoop]
     by_cases hlt : p.entries.length < cnt
-    · rw [if_pos hlt, parseMember_eq, Res.bind_ok]
+    · rw [if_pos hlt, parseKv_eq, Res.bind_ok]
       cases hm : memberEntry m with
       | none =>
         simp only []
@@ -475,7 +477,8 @@ theorem fromHeaderLoop_eq (cnt : Nat) : ∀ (ms : List Bytes) (p : KvProps), p.c
         rw [← heq]; exact List.take_left' rfl
       rw [this, ← hc]
 
-/-- **`FromHeader`, exactly**: never a fault; an over-long header gives the empty baggage; otherwise the entries are
+/-- **`FromHeader`, exactly**: never a fault — the tokenizer, both `Trim`s and both `UrlDecode`s never read outside
+    their strings and no `size_t` expression wraps; an over-long header gives the empty baggage; otherwise the entries are
     the contributions of the trimmed non-empty `,`-separated members, in order, cut off after
     min(number of `,`-separated tokens, 180) entries -/
 theorem fromHeader_eq (h : Bytes) : fromHeader h =
@@ -488,8 +491,10 @@ theorem fromHeader_eq (h : Bytes) : fromHeader h =
   · rw [if_neg hl, if_neg hl]
     have hmin : (if numTok 44 h > 180 then 180 else numTok 44 h) = min (numTok 44 h) 180 := by
       split <;> omega
+    obtain ⟨_, _, _, g4, _⟩ := gen_baggage
     simp only []
-    rw [hmin, fromHeaderLoop_eq (min (numTok 44 h) 180) (members 44 h) ⟨min (numTok 44 h) 180, []⟩ rfl (by simp)]
+    rw [hmin, g4, KvIdx.tokens_eq, Res.bind_ok,
+      fromHeaderLoop_eq (min (numTok 44 h) 180) (members 44 h) ⟨min (numTok 44 h) 180, []⟩ rfl (by simp)]
     simp
 
 theorem fromHeader_never_oob (h : Bytes) : ∃ r, fromHeader h = .ok r := ⟨_, fromHeader_eq h⟩
